@@ -387,6 +387,14 @@ DIRECTED = [
     'xsi:schemaLocation="a b" packageId="x.1.1"><dataset><title> A  title\n </title><para>  keep   this </para>\n  </dataset></eml:eml>',
     '<a k="&#10;x&#9;&#13;" xml:lang="&#10;"/>', '<a>x&#13;y<b/>t&#13;u</a>', '<a>&#13;</a>', '<a>\xa0</a>', '<a>\t \xa0</a>', '<a>x<![CDATA[ <y> ]]>z</a>', '<a>&#32;&#9;</a>', '<a><![CDATA[]]></a>', '<a><b> </b>  <c>\n</c>\t</a>',
 ]
+# every white-space shape as text and as tail (each document is imported with all four flag combinations,
+# clean=False/collapse=True included), and CDATA sections with markup and non-ASCII characters
+WS_SHAPES = [" ", "  ", "\n", "\t", "\xa0", " \n", "\n ", "\t\xa0 ", "\n\n  \n", "a  b", " a\n b ", "\xa0a\xa0", "a\tb\n\nc", " \u2003x\u2003 ", "x\x85y", "\u3000"]
+DIRECTED = DIRECTED + ["<r><a>%s</a><b/>%s<c>%s<d/>%s</c></r>" % (w, w, w, w) for w in WS_SHAPES] + [
+    "<a><![CDATA[<b>&amp; é 漢 \U0001F600 ]] > </b>]]></a>", "<a> <![CDATA[ <x/> ]]> t <![CDATA[&#38;é]]><b/><![CDATA[\n tail <&> ü ]]></a>",
+    "<p:a xmlns:p='urn:e'><![CDATA[  ]]><p:b><![CDATA[a  b]]></p:b><![CDATA[\xa0]]></p:a>",
+    "<a xmlns='urn:d'><b xmlns:p='urn:p' p:k='v'/><c xmlns=''/></a>",
+]
 FLAGS = [(True, False), (True, True), (False, False), (False, True)]
 
 
@@ -394,11 +402,11 @@ def run(ctx):
     from metapype.model import metapype_io as io
     built = ctx.build(extra_targets=["theories/Model/XmlRun.v"])
     thorough = ctx.tier == "thorough"
-    n_docs = 900 if thorough else 150
+    n_docs = 900 if thorough else 120
     ctx.extra["rule"] = ("random documents (<= 8 elements, depth <= 3) from the quantifier's grammar, each imported with all four (clean, collapse) "
                          "combinations and a random literals tuple; plus directed documents; for the correspondence only, also documents with "
                          "processing instructions and default-namespace declarations; non-trivial = distinct (document, flags, literals)")
-    docs = [(d, "directed") for d in DIRECTED]
+    docs = [(d, "with-default-ns" if "xmlns=" in d else "directed") for d in DIRECTED]
     # sizes past 256: one element with 300 children, one with 300 attributes; empty attribute values
     big = "<r n=''>" + "".join("<c i='%d'%s/>" % (i, " e=''" if i % 9 == 0 else "") if i % 3 else "<c> t%d </c>" % i for i in range(300))
     big += "<many " + " ".join("a%d='%d'" % (i, i) for i in range(300)) + "/></r>"
